@@ -785,6 +785,37 @@ macro_rules! failing_sink_case {
     }};
 }
 
+/// C12 + C10: after a write that failed on the caller's sink, the same component written again
+/// on the same thread into a healthy sink gives exactly the bits of the first, undisturbed
+/// write (the thread-local scratch sinks of `FrameHeader::write` / `Frame::write` hold nothing
+/// of the failed attempt).
+macro_rules! failing_sink_then_retry_case {
+    ($comp:expr) => {{
+        let mut full = RecSink::new(usize::MAX);
+        let r = $comp.write(&mut full);
+        let ok = r.is_ok();
+        std::mem::forget(r);
+        assert!(ok);
+        let k: usize = kani::any();
+        kani::assume(k < full.ops);
+        let mut failing = RecSink::new(k);
+        let r = $comp.write(&mut failing);
+        let is_sink_err = matches!(r, Err(OutputError::Sink(_)));
+        std::mem::forget(r);
+        assert!(is_sink_err);
+        assert!(failing.ops == k + 1);
+        assert!(failing.is_prefix_of(&full));
+        let mut again = RecSink::new(usize::MAX);
+        let r = $comp.write(&mut again);
+        let ok = r.is_ok();
+        std::mem::forget(r);
+        assert!(ok);
+        assert!(again.len == full.len && again.ops == full.ops);
+        assert!(again.is_prefix_of(&full) && full.is_prefix_of(&again));
+        (k, full.ops)
+    }};
+}
+
 //@ prop: C12
 //@ drives: FrameHeader::write, MetadataBlock::write, MetadataBlockData::write, StreamInfo::write, BitSink::write_bytes_aligned (default method), OutputError::from_sink
 //@ bound: a concrete frame header (4097 samples, 16001 Hz, mid-side, frame 2^31-1: 13 bytes), an unknown metadata block with 2 arbitrary payload bytes, an arbitrary STREAMINFO; the sink fails on its k-th operation for every k below the number of operations of the write
@@ -798,7 +829,7 @@ fn c12_failing_sink_header_and_metadata() {
     if sel == 0 {
         let mut h = FrameHeader::from_specs(BlockSizeSpec::from_size(4097), ChannelAssignment::MidSide, SampleSizeSpec::B24, SampleRateSpec::Hz(16001));
         h.set_frame_offset(FrameOffset::Frame(0x7FFF_FFFF));
-        let (k, ops) = failing_sink_case!(h);
+        let (k, ops) = failing_sink_then_retry_case!(h);
         kani::cover!(k + 1 == ops && ops > 10);
         std::mem::forget(h);
     } else if sel == 1 {
@@ -838,6 +869,33 @@ fn c12_failing_sink_subframes() {
         kani::cover!(k > 5);
         std::mem::forget(f);
     }
+}
+
+//@ prop: C12
+//@ drives: Residual::write (the try_repeat!-unrolled quotient/remainder loop: several 4-sample batches inside one partition), OutputError::from_sink
+//@ bound: a residual of 5 samples in one partition (one full 4-sample batch and a remainder batch of 1) with arbitrary Rice parameter <= 14, quotients <= 2 and remainders; the sink fails ONCE, on its k-th operation, for every k (a transient fault: later operations would succeed again)
+//@ asserts: as c12_failing_sink_header_and_metadata - in particular an error raised in a batch that is not the last one of its partition is still returned, and the writer issues no further operation after it
+#[kani::proof]
+#[kani::unwind(12)]
+fn c12_failing_sink_residual_batches() {
+    let r = gen::any_residual::<5, 0, 1>(0, 2);
+    let (k, ops) = failing_sink_case!(r);
+    kani::cover!(k == 3 && ops >= 11);
+    std::mem::forget(r);
+}
+
+//@ prop: C12
+//@ tier: thorough
+//@ drives: Residual::write (three batches in one partition)
+//@ bound: as c12_failing_sink_residual_batches with 9 samples (two full batches and a remainder; measured 8 min)
+//@ asserts: as c12_failing_sink_residual_batches
+#[kani::proof]
+#[kani::unwind(12)]
+fn c12_failing_sink_residual_three_batches() {
+    let r = gen::any_residual::<9, 0, 1>(0, 2);
+    let (k, ops) = failing_sink_case!(r);
+    kani::cover!(k == 3 && ops >= 19);
+    std::mem::forget(r);
 }
 
 /// A frame consisting of header and footer only (no subframes).  `Frame::write` does not look
@@ -886,7 +944,8 @@ pub(crate) fn crc16_update_stub<const L: usize>(crc: u16, _alg: &crc::Algorithm<
 //@ prop: C12
 //@ drives: Frame::write (FRAME_CRC_BUFFER path: MemSink<u64> -> byte buffer -> CRC-16 -> caller's sink)
 //@ bound: a frame of header + footer (16-sample header, frame number 3, no subframes: 9 bytes); the sink fails on its k-th operation for every k; frames with subframes are outside the bound (Vec<SubFrame> defeats CBMC, see bare_frame)
-//@ asserts: Err(OutputError::Sink), no panic, the failing sink saw k+1 operations, accepted bits are a prefix of the full bitstream
+//@ asserts: Err(OutputError::Sink), no panic, the failing sink saw k+1 operations, accepted bits are a prefix of the full bitstream; and the SAME frame written again on the same thread after the failure gives exactly the original bits (nothing of the failed attempt stays in the thread-local scratch sink - the multi-step history "fault, then retry")
+//@ also: C10
 //@ stubs: alloc::fmt::format -> empty string; crc::crc8::update_table and crc::crc16::update_table -> bitwise reference (contract checked by c02_h8_*)
 #[kani::proof]
 #[kani::unwind(14)]
@@ -895,7 +954,7 @@ pub(crate) fn crc16_update_stub<const L: usize>(crc: u16, _alg: &crc::Algorithm<
 #[kani::stub(crc::crc16::update_table, crc16_update_stub)]
 fn c12_failing_sink_frame() {
     let f = bare_frame();
-    let (k, ops) = failing_sink_case!(f);
+    let (k, ops) = failing_sink_then_retry_case!(f);
     kani::cover!(k + 1 == ops);
     kani::cover!(k == 0);
     std::mem::forget(f);
